@@ -145,8 +145,8 @@ func c14(c *Ctx) {
 		c.EdgeReturns("restore/other-error-stops", st, g, `fmt\.Errorf\(.*`, 1, "any other sync error ends the round with an error", "")
 	}
 	rs := "litefs.(*Store).restoreDBFromBackup"
-	c.Before("restore/create-after-fetch", rs, p.PlainCalls("litefs.(*Store).CreateDBIfNotExists"), p.PlainCalls("litefs.BackupClient.FetchSnapshot"), 1, "the local database is created only after the snapshot was fetched", "")
-	c.ErrHandled("restore/fetch-error-creates-nothing", rs, p.PlainCalls("litefs.BackupClient.FetchSnapshot"), p.PlainCalls("litefs.(*Store).CreateDBIfNotExists"), 1, "a failed snapshot download leaves no empty local database behind", "an empty local database at position zero makes every later sync drop the name from the position map: the restore is never retried and the primary serves an empty database while the service holds the data")
+	// (the order "fetch, then create the local database" is no longer required: since F35 an empty local
+	// database left behind by a failed download is replaced on the next sync like any database that is behind.)
 	c.Before("restore/lock-first", rs, p.PlainCalls("litefs.(*DB).recover", "litefs.(*DB).WriteLTXFileAt", "litefs.(*DB).ApplyLTXNoLock"), p.PlainCalls("litefs.(*DB).AcquireWriteLock"), 3, "recover, write and apply run under the write lock", "C11")
 	c.Before("restore/recover-before-write", rs, p.PlainCalls("litefs.(*DB).WriteLTXFileAt"), p.PlainCalls("litefs.(*DB).recover"), 1, "pending journal/WAL state is cleared before the snapshot is written", "")
 	c.Before("restore/write-before-apply", rs, p.PlainCalls("litefs.(*DB).ApplyLTXNoLock"), p.PlainCalls("litefs.(*DB).WriteLTXFileAt"), 1, "the snapshot is published as an LTX file before it is applied", "")
